@@ -440,6 +440,13 @@ def run_job(G, u, gen, bdir, job, tier):
         # cover this code (e.g. a new atomic operation) -> undecided, never a violation
         res['reason'] = 'functions reached without body, contract or stub: %s' % sorted(set(p['function'] or p['property'] for p in nobody_hit))
         return res
+    hname = job.get('harness')
+    short = [p for p in out_props if p['status'] == 'FAILURE' and hname and (p.get('property') or '').startswith(hname + '.unwind.')]
+    if short:
+        # an unwinding assertion of a loop of the harness itself: the job's bound is too small for its own parameters,
+        # which says nothing about the code under test -> undecided, never a violation
+        res['reason'] = 'the harness loop bound (--unwind %s) is too small: %s' % (job.get('unwind'), sorted(p['property'] for p in short))
+        return res
     other = [p for p in out_props if p['status'] not in ('SUCCESS', 'FAILURE')]
     real_fail = [p for p in out_props if p['status'] == 'FAILURE' and not p.get('twin')]
     if other and not real_fail:
